@@ -68,11 +68,15 @@ func (c *trCtx) assignedIn2(through bool, nodes ...ast.Node) []types.Object {
 		if id == nil || id.Name == "_" {
 			return
 		}
-		if _, bare := trUnparen(e).(*ast.Ident); bare && through && !c.markingCall {
+		_, bare := trUnparen(e).(*ast.Ident)
+		if bare && through && !c.markingCall {
 			return
 		}
 		if o, ok := c.info().Uses[id].(*types.Var); ok && !(o.Pkg() != nil && o.Parent() == o.Pkg().Scope()) {
 			assigned[o] = true
+			if al := c.aliases[o]; al != nil && al.tree && !bare {
+				assigned[al.recvObj] = true // the write-back into the tree the alias points into
+			}
 		}
 	}
 	for _, n := range nodes {
@@ -105,6 +109,7 @@ func (c *trCtx) assignedIn2(through bool, nodes ...ast.Node) []types.Object {
 				}
 			case *ast.CallExpr:
 				c.markingCall = true
+				c.treeAssignedIn(x, through, mark, assigned)
 				if id, ok := x.Fun.(*ast.Ident); ok && id.Name == "delete" && len(x.Args) == 2 {
 					mark(x.Args[0])
 				}
@@ -489,6 +494,9 @@ func (c *trCtx) exprStmt(x *ast.ExprStmt, k trK) trLines {
 			trFail(x.Pos(), "builtin %s as a statement is outside the subset", b.Name())
 		}
 	}
+	if r, ok := c.treeStmt(call, nil, false, k); ok {
+		return r
+	}
 	if tf, recv := c.calleeOf(call); tf != nil && len(tf.mut) > 0 {
 		return c.mutCall(call, tf, recv, nil, false, k)
 	}
@@ -549,6 +557,9 @@ func (c *trCtx) declStmt(x *ast.DeclStmt, k trK) trLines {
 
 // store: the assignment `lhs = val` (val already translated) followed by k
 func (c *trCtx) store(lhs ast.Expr, val string, pos token.Pos, k trK) trLines {
+	if id := trBaseIdent(lhs); id != nil && len(c.aliases) > 0 {
+		c.killAliases(c.info().Uses[id], nil) // aliases into a tree hanging on this variable are stale from here on
+	}
 	k = c.writeBack(lhs, k)
 	pre0 := c.takePre()
 	name, ty, term := c.storeTerm(lhs, val, pos)
@@ -579,6 +590,9 @@ func (c *trCtx) storeTerm(lhs ast.Expr, val string, pos token.Pos) (name, typ, t
 		sel, ok := c.info().Selections[l]
 		if !ok || sel.Kind() != types.FieldVal || len(sel.Index()) != 1 {
 			trFail(pos, "assignment to %s is outside the subset", trSrc(l))
+		}
+		if trIsTreeNode(c.typeOf(l.X)) && l.Sel.Name != "Value" {
+			trFail(pos, "assignment to the field %s of a multimap node is outside the subset (only Value)", l.Sel.Name)
 		}
 		// through a pointer: only the receiver / a parameter handled by state passing, or a local struct value
 		if _, isPtr := c.typeOf(l.X).Underlying().(*types.Pointer); isPtr {
@@ -668,8 +682,21 @@ func (c *trCtx) assign(x *ast.AssignStmt, k trK) trLines {
 	}
 	if len(x.Lhs) == 1 {
 		if call, ok := x.Rhs[0].(*ast.CallExpr); ok {
+			if r, ok := c.treeStmt(call, x.Lhs, x.Tok == token.DEFINE, k); ok {
+				return r
+			}
 			if tf, recv := c.calleeOf(call); tf != nil && len(tf.mut) > 0 {
 				return c.mutCall(call, tf, recv, x.Lhs, x.Tok == token.DEFINE, k)
+			}
+		}
+		if _, isLit := trUnparen(x.Rhs[0]).(*ast.FuncLit); isLit && x.Tok == token.DEFINE {
+			if id, ok := x.Lhs[0].(*ast.Ident); ok && c.onlyTreeArg(c.info().Defs[id]) {
+				return k() // translated where it is passed to multimap.Sort / PostOrder (trans_tree.go)
+			}
+		}
+		if id, ok := trUnparen(x.Rhs[0]).(*ast.Ident); ok {
+			if al := c.aliases[c.info().Uses[id]]; al != nil && al.tree {
+				trFail(x.Pos(), "copying %s, a pointer into a tree, is outside the subset", id.Name)
 			}
 		}
 		var val string
@@ -782,8 +809,15 @@ func (c *trCtx) mutCall(call *ast.CallExpr, tf *trFunc, recv ast.Expr, lhs []ast
 	}
 	keyIdx, aliasing := c.aliasKeyArg(call, tf)
 	keyName, keyVal, keyTy := "", "", ""
+	mutSig := tf.obj.Type().(*types.Signature)
 	for i, a := range call.Args {
-		s := c.identityArg(tf.obj, i, a, c.expr(a))
+		var av string
+		if i < mutSig.Params().Len() && !mutSig.Variadic() {
+			av = c.exprAs(a, mutSig.Params().At(i).Type())
+		} else {
+			av = c.expr(a)
+		}
+		s := c.identityArg(tf.obj, i, a, av)
 		if aliasing && i == keyIdx {
 			keyName, keyVal, keyTy = c.fresh("key"), s, c.leanType(c.typeOf(a), a.Pos())
 			s = keyName
@@ -890,7 +924,7 @@ func (c *trCtx) branch(cond string, a, b []ast.Stmt, whole ast.Node, k trK) trLi
 	for _, s := range b {
 		nodesA = append(nodesA, s)
 	}
-	if c.hasJump(nodesA...) {
+	if c.hasJump(nodesA...) || c.createsAlias(nodesA...) {
 		// some path leaves: the rest of the statement list is continued inside both branches
 		return trIte(cond, c.stmts(a, k), c.stmts(b, k))
 	}
@@ -1045,7 +1079,7 @@ func (c *trCtx) branchSynth(cond string, a []ast.Stmt, b *trSynth, whole ast.Nod
 	for _, s := range a {
 		nodes = append(nodes, s)
 	}
-	if c.hasJump(nodes...) {
+	if c.hasJump(nodes...) || c.createsAlias(nodes...) {
 		return trIte(cond, c.stmts(a, k), b.run(k))
 	}
 	vars := c.assignedIn(nodes...)
